@@ -60,7 +60,7 @@ def _cipher_encrypt(interp, st, args, kwargs):
     c = ENC()(zd, zk, nonce.z)
     st.assume(DEC()(c, zk) == zd)               # A-aead (correctness half)
     st.assume(NONCE_OF()(c) == nonce.z)
-    st.emit('encrypt', data=data, key=key, nonce=nonce, result=SV(BYTES, c))
+    st.emit('encrypt', data=SV(BYTES, zd), key=SV(BYTES, zk), nonce=nonce, result=SV(BYTES, c))
     yield st, SV(BYTES, c)
 
 
@@ -68,13 +68,13 @@ def _cipher_decrypt(interp, st, args, kwargs):
     _, data, key = args
     zd, zk = to_ty(interp, st, data, BYTES).z, to_ty(interp, st, key, BYTES).z
     bad = st.copy()
-    bad.emit('decrypt_failed', data=data, key=key)
+    bad.emit('decrypt_failed', data=SV(BYTES, zd), key=SV(BYTES, zk))
     yield bad, Raised(Exc('DecryptionError'))
     p = DEC()(zd, zk)
     # A-aead (authenticity half): a successful decryption means the ciphertext was
     # produced by ENC of exactly this plaintext under exactly this key
     st.assume(zd == ENC()(p, zk, NONCE_OF()(zd)))
-    st.emit('decrypt_ok', data=data, key=key, result=SV(BYTES, p))
+    st.emit('decrypt_ok', data=SV(BYTES, zd), key=SV(BYTES, zk), result=SV(BYTES, p))
     yield st, SV(BYTES, p)
 
 
